@@ -26,6 +26,12 @@ use xml_dom::{AsExpandedName, AsNode, AsStringValue, Attr, Node, NodeType, XmlDo
 use xml_xpath::eval::model::{Context, Value};
 
 pub fn main(sub: &str, args: &[String]) -> i32 {
+    // in-process drivers: a hang or an abort of the code under test becomes a "crash" event (util.rs watchdog)
+    if let Some(path) = arg_value(args, "--watch") {
+        if sub != "xp-total" && sub != "xp-worker" {
+            watchdog_start(path, 30, arg_flag(args, "--sync"));
+        }
+    }
     match sub {
         "xp-replay" => replay(args),
         "xp-record" => gen::record(args),
@@ -277,6 +283,13 @@ pub fn value_json(doc: &Doc, v: &Value) -> J {
 
 /// Evaluate one expression with a fresh context; a panic is data.
 pub fn eval_fresh(doc: &Doc, expr: &str, binds: &J) -> J {
+    heartbeat(|| json!({"k": "crash", "expr": string_to_cps(expr), "text": string_to_cps(&doc.text)}).to_string());
+    // self-test of the watchdog path (development aid): VERIF_XP_TESTHANG=<expr> simulates a hang on that expression
+    if std::env::var("VERIF_XP_TESTHANG").ok().as_deref() == Some(expr) {
+        loop {
+            std::thread::sleep(std::time::Duration::from_secs(1));
+        }
+    }
     let r = guarded(|| {
         let mut ctx = Context::default();
         if let Some(a) = binds.as_array() {
